@@ -199,9 +199,17 @@ def stage_a(prop: str, thorough: bool = False) -> StageA:
         st.ok_driver = rc == 0 and DRIVER.exists()
         if rc != 0:
             st.log += "lake build driver failed:\n" + out[-6000:]
+            # the tables regenerated from the source no longer compile (the source changed shape).  The obligation is broken; to be able to
+            # search for a failing input, fall back to the last committed tables (the model of the unchanged code) and rebuild the driver.
+            rc2, _ = run(["git", "checkout", "--", "lean/SuitVerif/Generated"], cwd=VERIF)
+            rc3, out3 = run(["lake", "build", "driver"], cwd=LEAN)
+            if rc2 == 0 and rc3 == 0 and DRIVER.exists():
+                st.ok_driver = True
+                st.generated_fallback = True
+                st.log += "\nfell back to the committed Generated/*.lean for the failing-input search\n"
         mod = f"SuitVerif.Props.{prop}"
         rc, out = run(["lake", "build", mod], cwd=LEAN)
-        st.ok_proofs = rc == 0
+        st.ok_proofs = rc == 0 and not getattr(st, "generated_fallback", False)
         if rc != 0:
             st.log += f"lake build {mod} failed:\n" + out[-8000:]
         if st.ok_proofs:
